@@ -247,18 +247,20 @@ theorem handleAE_full (nd : Node) (t p pt : Nat) (es : List Entry) (lc stage : N
     · simp only [h2, if_true]
       split
       · exact ⟨rfl, rfl, by omega, Or.inl ⟨rfl, rfl⟩⟩
-      · rename_i hchk
-        have hc : p = 0 ∨ (p ≤ nd.log.length ∧ termAt nd.log p = pt) := by
-          by_cases hp : p = 0
-          · exact Or.inl hp
-          · right
-            simp only [not_and, not_or, ne_eq] at hchk
-            have := hchk hp
-            simp only [Nat.not_lt, Decidable.not_not] at this
-            exact this
-        split
-        · exact ⟨rfl, rfl, by omega, Or.inr ⟨hc, Or.inl ⟨rfl, rfl⟩⟩⟩
-        · exact ⟨rfl, rfl, by omega, Or.inr ⟨hc, Or.inr ⟨rfl, rfl⟩⟩⟩
+      · split
+        · exact ⟨rfl, rfl, by omega, Or.inl ⟨rfl, rfl⟩⟩
+        · rename_i _ hchk
+          have hc : p = 0 ∨ (p ≤ nd.log.length ∧ termAt nd.log p = pt) := by
+            by_cases hp : p = 0
+            · exact Or.inl hp
+            · right
+              simp only [not_and, not_or, ne_eq] at hchk
+              have := hchk hp
+              simp only [Nat.not_lt, Decidable.not_not] at this
+              exact this
+          split
+          · exact ⟨rfl, rfl, by omega, Or.inr ⟨hc, Or.inl ⟨rfl, rfl⟩⟩⟩
+          · exact ⟨rfl, rfl, by omega, Or.inr ⟨hc, Or.inr ⟨rfl, rfl⟩⟩⟩
     · simp only [h2, if_false]
       have hrole : nd.role = .follower := by
         by_contra hne; exact h2 (Or.inr hne)
@@ -267,18 +269,43 @@ theorem handleAE_full (nd : Node) (t p pt : Nat) (es : List Entry) (lc stage : N
         omega
       split
       · exact ⟨hrole, hterm, by omega, Or.inl ⟨rfl, rfl⟩⟩
-      · rename_i hchk
-        have hc : p = 0 ∨ (p ≤ nd.log.length ∧ termAt nd.log p = pt) := by
-          by_cases hp : p = 0
-          · exact Or.inl hp
-          · right
-            simp only [not_and, not_or, ne_eq] at hchk
-            have := hchk hp
-            simp only [Nat.not_lt, Decidable.not_not] at this
-            exact this
-        split
-        · exact ⟨hrole, hterm, by omega, Or.inr ⟨hc, Or.inl ⟨rfl, rfl⟩⟩⟩
-        · exact ⟨hrole, hterm, by omega, Or.inr ⟨hc, Or.inr ⟨rfl, rfl⟩⟩⟩
+      · split
+        · exact ⟨hrole, hterm, by omega, Or.inl ⟨rfl, rfl⟩⟩
+        · rename_i _ hchk
+          have hc : p = 0 ∨ (p ≤ nd.log.length ∧ termAt nd.log p = pt) := by
+            by_cases hp : p = 0
+            · exact Or.inl hp
+            · right
+              simp only [not_and, not_or, ne_eq] at hchk
+              have := hchk hp
+              simp only [Nat.not_lt, Decidable.not_not] at this
+              exact this
+          split
+          · exact ⟨hrole, hterm, by omega, Or.inr ⟨hc, Or.inl ⟨rfl, rfl⟩⟩⟩
+          · exact ⟨hrole, hterm, by omega, Or.inr ⟨hc, Or.inr ⟨rfl, rfl⟩⟩⟩
+
+/-- if the follower does not hold the entry (idx, term of T at idx) there is a first divergence
+    point below idx -/
+theorem first_divergence (L T : List Entry) (idx : Nat) (hT : idx ≤ T.length)
+    (hagree : ∀ i (h1 : i < L.length) (h2 : i < T.length),
+        L[i].term = T[i].term → L.take (i + 1) = T.take (i + 1)) :
+    ∀ m, m ≤ idx → L.take m = T.take m ∨
+      ∃ q, q < m ∧ L.take q = T.take q ∧
+        (L.length ≤ q ∨ ∃ (h1 : q < L.length) (h2 : q < T.length), L[q].term ≠ T[q].term) := by
+  intro m
+  induction m with
+  | zero => intro _; left; simp
+  | succ m ih =>
+    intro hm
+    rcases ih (by omega) with hl | ⟨q, hq, h1, h2⟩
+    · by_cases hLm : L.length ≤ m
+      · right; exact ⟨m, by omega, hl, Or.inl hLm⟩
+      · have h1 : m < L.length := by omega
+        have h2 : m < T.length := by omega
+        by_cases hterm : L[m].term = T[m].term
+        · left; exact hagree m h1 h2 hterm
+        · right; exact ⟨m, by omega, hl, Or.inr ⟨h1, h2, hterm⟩⟩
+    · right; exact ⟨q, by omega, h1, h2⟩
 
 theorem inv3_step (n : Nat) (s s' : Sys) (hreach : Reachable n s) (h : Inv3 n s)
     (hstep : Step n s s') : Inv3 n s' := by
@@ -1083,6 +1110,159 @@ theorem inv3_step (n : Nat) (s s' : Sys) (hreach : Reachable n s) (h : Inv3 n s)
             rcases hmc with ⟨hres, htk⟩ | ⟨hres, _⟩
             · rw [hres]; exact htk
             · rw [hres, List.take_take, Nat.min_self]
+  | compact i b =>
+    apply inv3_frame n s _ h
+    · intro j; simp only [apply, setNode_nodes]; split
+      · rename_i hj; subst hj; rfl
+      · rfl
+    · intro j; simp only [apply, setNode_nodes]; split
+      · rename_i hj; subst hj; exact Nat.le_refl _
+      · exact Nat.le_refl _
+    · rfl
+    · rfl
+    · rfl
+    · rfl
+    · rfl
+    · intro c u li lt; rfl
+    · intro v l t k' hm; exact hm
+    · intro c; simp only [apply, setNode_nodes]; split
+      · rename_i hj; subst hj; intro hc; exact ⟨rfl, hc⟩
+      · intro hc; exact ⟨rfl, hc⟩
+  | takeSnap i k =>
+    apply inv3_frame n s _ h
+    · intro j; simp only [apply, setNode_nodes]; split
+      · rename_i hj; subst hj; rfl
+      · rfl
+    · intro j; simp only [apply, setNode_nodes]; split
+      · rename_i hj; subst hj; exact Nat.le_refl _
+      · exact Nat.le_refl _
+    · rfl
+    · rfl
+    · rfl
+    · rfl
+    · rfl
+    · intro c u li lt; rfl
+    · intro v l t k' hm; exact hm
+    · intro c; simp only [apply, setNode_nodes]; split
+      · rename_i hj; subst hj; intro hc; exact ⟨rfl, hc⟩
+      · intro hc; exact ⟨rfl, hc⟩
+  | sendIS i =>
+    apply inv3_frame n s _ h
+    · intro j; rfl
+    · intro j; exact Nat.le_refl _
+    · rfl
+    · rfl
+    · rfl
+    · rfl
+    · rfl
+    · intro c u li lt
+      simp only [apply, List.mem_cons]
+      constructor
+      · rintro (hm | hm)
+        · cases hm
+        · exact hm
+      · intro hm; exact Or.inr hm
+    · intro v l t k' hm
+      simp only [apply, List.mem_cons] at hm
+      rcases hm with hm | hm
+      · cases hm
+      · exact hm
+    · intro c hc; exact ⟨rfl, hc⟩
+  | recvIS j ldr t idx iterm =>
+    simp only [enabled] at hen
+    obtain ⟨hj, hm⟩ := hen
+    obtain ⟨hidx1, hmsg⟩ := (inv2b_reachable n s hreach).is_ok ldr t idx iterm hm
+    have hf := handleIS_log (s.nodes j) (s.ghost.tl t) t idx iterm
+    simp only at hf
+    have htl : (apply n s (Label.recvIS j ldr t idx iterm)).ghost.tl = s.ghost.tl := by
+      simp only [apply]; exact ghost_ifa_tl _ _ _
+    have hel : (apply n s (Label.recvIS j ldr t idx iterm)).ghost.elected = s.ghost.elected := by
+      simp only [apply]; exact ghost_ifa_elected _ _ _
+    have hglogs : (apply n s (Label.recvIS j ldr t idx iterm)).ghost.glogs = s.ghost.glogs := by
+      simp only [apply]; exact ghost_ifa_glogs _ _ _
+    have hgrants : (apply n s (Label.recvIS j ldr t idx iterm)).ghost.grants = s.ghost.grants := by
+      simp only [apply]; exact ghost_ifa_grants _ _ _
+    have hacks : (apply n s (Label.recvIS j ldr t idx iterm)).ghost.acks
+        = if (handleIS (s.nodes j) (s.ghost.tl t) t idx iterm).2 = true
+          then (j, t, idx) :: s.ghost.acks else s.ghost.acks := by
+      simp only [apply]; exact ghost_ifa_acks _ _ _
+    have hnodes : ∀ k, k ≠ j → (apply n s (Label.recvIS j ldr t idx iterm)).nodes k = s.nodes k := by
+      intro k hk; simp only [apply, setNode_nodes, hk, if_false]
+    have hnodej : (apply n s (Label.recvIS j ldr t idx iterm)).nodes j
+        = (handleIS (s.nodes j) (s.ghost.tl t) t idx iterm).1 := by
+      simp only [apply, setNode_nodes, if_true]
+    have hreq : ∀ c u li lt,
+        Msg.voteReq c u li lt ∈ (apply n s (Label.recvIS j ldr t idx iterm)).net ↔
+        Msg.voteReq c u li lt ∈ s.net := by
+      intro c u li lt; simp only [apply]; split
+      · simp only [List.mem_cons]
+        constructor
+        · rintro (h | h)
+          · cases h
+          · exact h
+        · intro h; exact Or.inr h
+      · rfl
+    have hresp : ∀ v l t' k,
+        Msg.aeResp v l t' k ∈ (apply n s (Label.recvIS j ldr t idx iterm)).net →
+        Msg.aeResp v l t' k ∈ s.net := by
+      intro v l t' k h; simp only [apply] at h; split at h
+      · rcases List.mem_cons.mp h with h | h
+        · cases h
+        · exact h
+      · exact h
+    have hlen : idx ≤ (s.ghost.tl t).length := by have := hmsg.len; simpa using this
+    have hagree : ∀ i (h1 : i < (s.nodes j).log.length) (h2 : i < (s.ghost.tl t).length),
+        (s.nodes j).log[i].term = (s.ghost.tl t)[i].term →
+        (s.nodes j).log.take (i + 1) = (s.ghost.tl t).take (i + 1) :=
+      fun i h1 h2 ht => prefixOK_agree _ _ _ (hinv2.log_ok j) (hinv2.tl_ok t) i h1 h2 ht
+    rcases hf with ⟨hsame, hr2⟩ | ⟨hr2, frole, fterm, fle, _, hl⟩
+    · apply inv3_frame n s _ h
+      · intro k; by_cases hk : k = j
+        · subst hk; rw [hnodej, hsame]
+        · rw [hnodes k hk]
+      · intro k; by_cases hk : k = j
+        · subst hk; rw [hnodej, hsame]
+        · rw [hnodes k hk]
+      · exact htl
+      · exact hel
+      · rw [hacks]; simp only [hr2, if_false, Bool.false_eq_true]
+      · exact hglogs
+      · exact hgrants
+      · exact hreq
+      · exact hresp
+      · intro c; by_cases hc : c = j
+        · subst hc; rw [hnodej, hsame]; intro hcc; exact ⟨rfl, hcc⟩
+        · rw [hnodes c hc]; intro hcc; exact ⟨rfl, hcc⟩
+    · -- processed: either the log is kept (it holds the snapshot's last entry) or replaced
+      apply inv3_recv n s _ h hinv2 j t idx _ true hnodes
+        (by rw [hnodej]) (by rw [hnodej]; exact fterm) (by rw [hnodej]; exact frole) fle
+        htl hel hglogs hgrants hreq hmsg.nonempty hlen
+      · rcases hl with ⟨_, _, hl⟩ | ⟨hnot, hl⟩
+        · exact Or.inl hl
+        · right; right
+          refine ⟨hl, ?_⟩
+          rcases first_divergence (s.nodes j).log (s.ghost.tl t) idx hlen hagree idx (Nat.le_refl _)
+            with heq | ⟨q, hq, h1, h2⟩
+          · exfalso
+            apply hnot
+            have hL : idx ≤ (s.nodes j).log.length := by
+              have := congrArg List.length heq
+              simp only [List.length_take] at this
+              omega
+            refine ⟨hL, ?_⟩
+            obtain ⟨k', rfl⟩ : ∃ k', idx = k' + 1 := ⟨idx - 1, by omega⟩
+            rw [termAt_succ _ k' (by omega), hmsg.pterm, termAt_succ _ k' (by omega)]
+            rw [getElem_of_take_eq _ _ (k' + 1) k' heq (by omega) (by omega) (by omega)]
+          · exact ⟨q, hq, h1, h2⟩
+      · rw [hacks]; simp only [hr2, if_true]
+      · intro v l t' k hh; exact Or.inl (hresp v l t' k hh)
+      · intro _
+        rcases hl with ⟨hL, hterm, hl⟩ | ⟨_, hl⟩
+        · rw [hl]
+          obtain ⟨k', rfl⟩ : ∃ k', idx = k' + 1 := ⟨idx - 1, by omega⟩
+          apply hagree k' (by omega) (by omega)
+          rw [← termAt_succ _ k' (by omega), hterm, hmsg.pterm, termAt_succ _ k' (by omega)]
+        · rw [hl, List.take_take, Nat.min_self]
   | advanceCommit i k Q =>
     apply inv3_frame n s _ h
     · intro j; simp only [apply, setNode_nodes]; split
